@@ -73,6 +73,18 @@ def log_hash(resp):
     return stable_hash({'log': log, 'exit': resp.get('exit'), 'sig': resp.get('sig'), 'stdout': resp.get('stdout')})
 
 
+def sim_ticks(resp):
+    """Logical time (ticks) covered by a run, from whatever the engine logged."""
+    t = 0
+    for e in resp.get('log', []):
+        ev = e.get('ev')
+        if ev in ('run-end', 'x-exit') and 'ticks' in e:
+            t = max(t, e['ticks'])
+        elif ev == 'task' and 'ticks' in e:
+            t += e['ticks']
+    return t
+
+
 def death_of(resp):
     """How a run died, or None. Classification used by every engine."""
     if resp.get('harness_error'):
@@ -399,6 +411,9 @@ def run_check(check, tier, seed=None, budget_s=None, jobs=None):
             'discarded': discarded,
             'determinism_pairs_compared': det_pairs,
             'runs_per_hour': int(evaluations / max(wall, 1e-9) * 3600),
+            'simulated_ticks': counters.get('sim-ticks', 0),
+            'fault_kinds_fired': {k: v for k, v in sorted(counters.items()) if k.startswith('F-')},
+            'reach_probes': {k: v for k, v in sorted(counters.items()) if k.startswith('P-')},
             'workers': jobs, 'budget_s': budget_s,
             'technique': check.technique,
             'components': COMPONENTS,
